@@ -44,7 +44,7 @@ func loadStrings(path string) ([]*textStr, error) {
 // ---------------------------------------------------------------- C06
 
 var c06Props = []string{"name", "summary", "content", "preferredUsername", "source.content"}
-var c06Forms = []string{"single", "tagged1", "map2", "map3", "map2-case"}
+var c06Forms = []string{"single", "tagged1", "map2", "map2-last", "map3", "map2-case"}
 
 func c06Value(prop, form string, text []byte) (ap.Item, []string) {
 	var n ap.NaturalLanguageValues
@@ -56,6 +56,9 @@ func c06Value(prop, form string, text []byte) (ap.Item, []string) {
 		n = ap.NaturalLanguageValues{{Ref: "en", Value: ap.Content(text)}}
 	case "map2":
 		n = ap.NaturalLanguageValues{{Ref: "en", Value: ap.Content(text)}, {Ref: "fr", Value: ap.Content("fixe")}}
+		tags = []string{"en", "fr"}
+	case "map2-last": // the text is the LAST entry
+		n = ap.NaturalLanguageValues{{Ref: "fr", Value: ap.Content("fixe")}, {Ref: "en", Value: ap.Content(text)}}
 		tags = []string{"en", "fr"}
 	case "map2-case": // tags are case-sensitive strings: they must come back as they were
 		n = ap.NaturalLanguageValues{{Ref: "en-US", Value: ap.Content(text)}, {Ref: "zh-Hant", Value: ap.Content("fixe")}}
@@ -469,7 +472,7 @@ func init() {
 							continue
 						}
 						// longer strings: content/single/json and a rotation of the rest
-						if len(t.Syms) > maxAll && !(prop == "content" && form == "single") && (n+len(t.Syms))%17 != 0 {
+						if len(t.Syms) > maxAll && len(t.Syms) < 100 && !(prop == "content" && form == "single") && (n+len(t.Syms))%17 != 0 {
 							n++
 							continue
 						}
@@ -514,7 +517,7 @@ func init() {
 					if len(t.b) == 0 {
 						continue
 					}
-					if len(t.Syms) > maxAll && (si+pi)%13 != 0 {
+					if len(t.Syms) > maxAll && (len(t.Syms) >= 100 && pi%4 != 0 || len(t.Syms) < 100 && (si+pi)%13 != 0) {
 						continue
 					}
 					ev := emitOne(pos, via, t, base)
